@@ -157,7 +157,7 @@ RetOK(op, a, exp, obs) ==
     [] op = "Deduplicate" -> ObservedGroups(obs.groups) = exp.groups /\ ObservedGroupTotal(obs.groups) = exp.total
     [] op \in {"InverseCoordinates"} -> obs.starts = exp.starts /\ obs.lens = exp.lens
     [] op \in {"InversePositions"} -> obs.sites = exp.sites
-    [] op = "RefSites" -> Range(obs.sites) = Range(exp.sites) /\ Len(obs.sites) = Len(exp.sites)
+    [] op = "RefSites" -> obs.sites = exp.sites
     [] op = "RefCoordinates" -> obs.start = exp.start /\ obs.len = exp.len
     [] op \in {"RemoveGapSites", "RemoveCharacterSites", "RemoveMajorityCharacterSites"} ->
          /\ Range(obs.kept) = Range(exp.kept) /\ Len(obs.kept) = Len(exp.kept)
